@@ -303,3 +303,71 @@ def delimited_variants(inner, inner_max_bits: int):
     base = -(-inner_max_bits // 8) * 8
     for add in (0, 8, 64):
         yield ["delim", inner, base + add]
+
+
+# ------------------------------------------------------------------------------------------------ beyond "three of everything"
+MEDIUM_COUNTS = [4, 5, 6, 8, 9, 16, 17]
+MEDIUM_CAPS = [4, 5, 7, 8, 9, 15, 16, 17, 31, 32, 33, 63, 64, 65, 100, 127, 128, 129, 1000]
+
+
+def medium(tier: str = "quick", max_cap: int = 10**9):
+    """
+    Types with MORE than three of everything (fields, variants, elements, nesting levels), in a fixed systematic pattern (no sampling):
+    field i of an n-field composite is F1[(start + i * step) % len(F1)]; capacities around every power of two up to 128 and 100 / 1000;
+    wrapper chains of depth 4..6 that alternate structure / union / delimited / array.
+    """
+    al = [f for f in F1]
+    steps = (1, 5) if tier == "quick" else (1, 5, 7)
+    starts = range(0, len(al), 3) if tier == "quick" else range(len(al))
+    for n in MEDIUM_COUNTS:
+        for start in starts:
+            for step in steps:
+                fs = [al[(start + i * step) % len(al)] for i in range(n)]
+                yield ["struct", fs]
+                vs = [f for f in fs if f[0] != "void"]
+                if len(vs) >= 2:
+                    yield ["union", vs]
+        yield ["struct", [["uint", 3, "s"]] * n]
+        yield ["union", [["varr", ["bool"], 3]] * n]
+    elems = [["bool"], ["uint", 3, "s"], ["uint", 8, "s"], ["uint", 17, "t"], ["struct", [["bool"], ["uint", 8, "s"]]], ["varr", ["uint", 8, "s"], 2]]
+    for e in elems:
+        for c in MEDIUM_CAPS:
+            if c > max_cap or (tier == "quick" and c > 129 and e[0] not in ("bool", "uint")):
+                continue
+            yield ["struct", [["bool"], ["farr", e, c], ["uint", 3, "s"]]]
+            yield ["struct", [["uint", 3, "s"], ["varr", e, c]]]
+    # chains: depth 4, 5, 6
+    for depth in (4, 5, 6):
+        for leaf in (["uint", 3, "s"], ["varr", ["bool"], 3]):
+            for phase in range(4):
+                x = leaf
+                for lvl in range(depth):
+                    k = (lvl + phase) % 4
+                    if k == 0:
+                        x = ["struct", [["bool"], x]]
+                    elif k == 1:
+                        x = ["union", [x, ["uint", 8, "s"]]]
+                    elif k == 2:
+                        inner = ["struct", [x, ["uint", 3, "s"]]]
+                        x = ["delim", inner, -(-_tmax(inner) // 8) * 8 + 8]
+                    else:
+                        x = ["struct", [["varr", x, 2]]] if x[0] in ("struct", "union", "delim") else ["struct", [["farr", x, 2]]]
+                yield x if is_composite(x) else ["struct", [x]]
+
+
+def has_array_of_arrays(desc) -> bool:
+    """Arrays of arrays exist in the type model (constructors) but cannot be written in DSDL text."""
+    k = desc[0]
+    if k in ("farr", "varr"):
+        return desc[1][0] in ("farr", "varr") or has_array_of_arrays(desc[1])
+    if k in ("struct", "union"):
+        return any(has_array_of_arrays(f) for f in desc[1])
+    if k == "delim":
+        return has_array_of_arrays(desc[1])
+    return False
+
+
+def _tmax(desc) -> int:
+    from ..ref import layout as L
+
+    return L.tmax(desc)
